@@ -343,7 +343,7 @@ class qutipEngine(quantumEngine):
         p1 = obj.tr().real
 
         # Sample the measurement outcome from these probabilities
-        outcome = int(np.random.choice([0, 1], 1, p=[p0, p1]))
+        outcome = int(np.random.choice([0, 1], p=[p0, p1]))
 
         # Compute the post-measurement state, getting rid of the measured qubit
         if outcome == 0:
